@@ -152,7 +152,30 @@ vf::CaseResult run_case(const std::string &id, const Program &prog, Stats &st) {
     }
   }
   if (queries.empty()) return res;
-  const PolyMesh &M = S.mesh;  // readers only see const references
+  // "cold" twin of the generated mesh: rebuilt from the stored definitions with bottom-up incidences switched off and
+  // enabled only at the very end (as the file readers do), and never queried before the reader threads start - so that
+  // lazily initialised state behind const accessors (caches, postponed re-ordering) is first touched concurrently.
+  // Building and checking the original mesh has long warmed up anything of that kind.
+  PolyMesh cold, collected;
+  bool use_cold = true;
+  if (S.mesh.needs_garbage_collection() && (queries[0]->a[4] & 1)) use_cold = false;  // half of those cases: readers see the pending deletions
+  else if (S.mesh.needs_garbage_collection()) { collected = S.mesh; collected.collect_garbage(); }
+  const PolyMesh &src = S.mesh.needs_garbage_collection() ? collected : S.mesh;
+  if (use_cold) {
+    cold.enable_bottom_up_incidences(false);
+    for (size_t v = 0; v < src.n_vertices(); ++v) cold.add_vertex(src.vertex(VertexHandle((int)v)));
+    for (size_t e = 0; e < src.n_edges(); ++e) cold.add_edge(src.edge(EdgeHandle((int)e)).from_vertex(), src.edge(EdgeHandle((int)e)).to_vertex(), true);
+    for (size_t f = 0; f < src.n_faces(); ++f) cold.add_face(src.face(FaceHandle((int)f)).halfedges(), false);
+    for (size_t c = 0; c < src.n_cells(); ++c) cold.add_cell(src.cell(CellHandle((int)c)).halffaces(), false);
+    cold.enable_bottom_up_incidences(true);
+    use_cold = cold.n_vertices() == src.n_vertices() && cold.n_edges() == src.n_edges() && cold.n_faces() == src.n_faces() && cold.n_cells() == src.n_cells();
+  }
+  st.count(use_cold ? "readers_on_cold_twin" : "readers_on_generated_mesh(pending deletions)");
+  // the same for the companions: incidences off and on again, no query in between
+  tm.enable_bottom_up_incidences(false); tm.enable_bottom_up_incidences(true);
+  hm.enable_bottom_up_incidences(false); hm.enable_bottom_up_incidences(true);
+  const PolyMesh &M = use_cold ? cold : S.mesh;  // readers only see const references
+  const PolyMesh &MP = S.mesh;                   // property groups: the bank's handles belong to the generated mesh
   const PropBank *B = &bank;
   int T = 2 << (queries[0]->a[0] % 4);  // 2,4,8,16
   if (T > 16) T = 16;
@@ -168,13 +191,12 @@ vf::CaseResult run_case(const std::string &id, const Program &prog, Stats &st) {
     for (auto &pr : sq) {
       if (pr.first == 10) h = mix(h, tet_step(tm));
       else if (pr.first == 11) h = mix(h, hex_step(hm));
-      else h = mix(h, step(M, pr.first, pr.second, B));
+      else h = mix(h, step((pr.first % 10 == 6 || pr.first % 10 == 8) ? MP : M, pr.first, pr.second, B));
     }
     return h;
   };
-  // single-threaded reference digests
+  // the single-threaded reference digests are computed AFTER the concurrent run (they would warm everything up)
   std::vector<uint64_t> ref((size_t)T), got((size_t)T, 0);
-  for (int t = 0; t < T; ++t) ref[(size_t)t] = run_seq(seqs[(size_t)t]);
   std::atomic<int> ready(0);
   std::atomic<bool> go(false);
   std::vector<std::thread> th;
@@ -188,6 +210,7 @@ vf::CaseResult run_case(const std::string &id, const Program &prog, Stats &st) {
   while (ready.load() < T) std::this_thread::yield();
   go.store(true, std::memory_order_release);
   for (auto &x : th) x.join();
+  for (int t = 0; t < T; ++t) ref[(size_t)t] = run_seq(seqs[(size_t)t]);
   std::set<int> kinds;
   bool overlap = false;
   for (int t = 0; t < T; ++t) for (auto &pr : seqs[(size_t)t]) { if (t > 0) for (auto &q0 : seqs[0]) if (q0.first == pr.first) overlap = true; kinds.insert(pr.first); }
